@@ -151,3 +151,11 @@ Definition ex_jt_perm : tprog :=
     TOp 21 [(rcx, 8%nat)] [(rcx, 8%nat)]; TLabel 2; TMove rax rcx 8 false 8; TRet [(rax, 8%nat)] ].
 Example ex_jt_perm_rejected : validate ex_src_jt ex_jt_perm [Some 0; Some 1; Some 2; Some 3; Some 4; Some 5; None; Some 7]%nat = false.
 Proof. vm_compute. reflexivity. Qed.
+
+(* 11. register lists: {v30, v31, v0} wraps around and is what the CPU uses for lead v30; {v1, v3} is not a list *)
+Example ex_list_wrap : consec_ok [LReg 1 30; LReg 1 31; LReg 1 0] = true.
+Proof. vm_compute. reflexivity. Qed.
+Example ex_list_gap : consec_ok [LReg 1 1; LReg 1 3] = false.
+Proof. vm_compute. reflexivity. Qed.
+Example ex_list_group : consec_ok [LReg 1 4; LReg 0 5] = false.
+Proof. vm_compute. reflexivity. Qed.
